@@ -117,11 +117,43 @@ class _Abort(BaseException):
   pass
 
 
+class CaseTimeout(BaseException):
+  """One case ran longer than the per-case watchdog allows (inconclusive, never a verdict)."""
+
+
+def _on_alarm(signum, frame):
+  raise CaseTimeout()
+
+
 def _judge(mod, case):
-  """Runs the oracle; oracle crashes are harness errors, not violations."""
+  """Runs the oracle; oracle crashes are harness errors, not violations.
+
+  A per-case watchdog (SIGALRM in the worker's main thread; CASE_TIMEOUT seconds, default 300,
+  None = off) turns a case that does not come back into a counted skip: a time budget that is
+  hit means "inconclusive", and one runaway case must not hang the whole check."""
+  import signal
   from harness import vuni
   vuni.reset_log()
-  return mod.check(case)
+  limit = getattr(mod, 'CASE_TIMEOUT', 300)
+  if os.environ.get('VERIF_CASE_TIMEOUT'):
+    limit = float(os.environ['VERIF_CASE_TIMEOUT'])
+  if not limit or not hasattr(signal, 'setitimer'):
+    return mod.check(case)
+  try:
+    old = signal.signal(signal.SIGALRM, _on_alarm)
+  except ValueError:  # not in the main thread
+    return mod.check(case)
+  try:
+    try:
+      signal.setitimer(signal.ITIMER_REAL, limit)
+      return mod.check(case)
+    finally:
+      signal.setitimer(signal.ITIMER_REAL, 0)
+      signal.signal(signal.SIGALRM, old)
+  except CaseTimeout:
+    out = Outcome()
+    out.skipped = 'case-timeout'
+    return out
 
 
 def _worker(args):
